@@ -176,7 +176,9 @@ def prove_function(uname, t, cfile, qual, spec, tier, extra_replace):
     gi = ['goto-instrument', '--dfcc', 'h_' + cname, '--enforce-contract', cname]
     for g in replace:
         gi += ['--replace-call-with-contract', g]
-    gi += ['--apply-loop-contracts', gb1, gb2]
+    if not spec.get('no_loop_contracts'):
+        gi += ['--apply-loop-contracts']
+    gi += [gb1, gb2]
     rc, o, e, _ = run(gi, 300)
     if rc != 0:
         rec['reason'] = 'goto-instrument failed: ' + (e or o)[-1500:]
@@ -185,6 +187,8 @@ def prove_function(uname, t, cfile, qual, spec, tier, extra_replace):
     cb = ['cbmc', gb2, '--object-bits', 'OB'] + checks + ['--json-ui']
     if spec.get('unwind'):
         cb += ['--unwind', str(spec['unwind']), '--unwinding-assertions']
+    if spec.get('unwindset'):
+        cb += ['--unwindset', ','.join('%s:%d' % (k, v) for k, v in spec['unwindset'].items()), '--unwinding-assertions']
     solver = spec.get('solver', 'sat')
     if solver == 'cvc5':
         cb += ['--cvc5']
@@ -201,6 +205,8 @@ def prove_function(uname, t, cfile, qual, spec, tier, extra_replace):
         if rc == 'timeout' or 'too many addressed objects' not in o:
             break
     rec['cmd'] = ' '.join(gi[:-2]) + ' && ' + ' '.join(cb)
+    if spec.get('bounded'):
+        rec['bounded'] = spec['bounded']
     rec['seconds'] = round(time.time() - t0, 2)
     if rc == 'timeout':
         rec['reason'] = 'cbmc timeout after %ds' % cap
